@@ -13,16 +13,24 @@
 (*   AddListener/RemoveListener(t, l)         add_handler / remove_handler *)
 (* A listener may re-enter the setter from its callback ("clamp": told a   *)
 (* value other than its clamp value, it assigns the clamp value to the     *)
-(* property that notified it).  One public call is still one TLC step, but *)
+(* property that notified it) or raise from it ("raise": told about its    *)
+(* property, it raises).  One public call is still one TLC step, but       *)
 (* its effect is computed by running the code's statements in order on a   *)
-(* machine state M = [st, lg, n, last]:                                    *)
+(* machine state M = [st, lg, n, last, exc]:                               *)
 (*   Assign(t, p, v, M)   the setter: store, then dispatch                 *)
 (*   Loop(.., todo, M)    dispatch(): one callback per listener of the     *)
 (*                        snapshot, in an order chosen by the              *)
 (*                        specification (set iteration order); each        *)
 (*                        callback records what a read of the property     *)
-(*                        returns at that moment and may call Assign       *)
+(*                        returns at that moment and may call Assign or    *)
+(*                        raise                                            *)
 (* so every interleaving of outer and nested deliveries is an outcome.     *)
+(* An exception raised by a callback is not handled anywhere in the        *)
+(* library: it leaves the dispatch loop (the listeners of the snapshot not *)
+(* yet served are not called), the setter (which has stored the value      *)
+(* already: nothing is undone), every enclosing callback / dispatch /      *)
+(* setter of a nested assignment alike, and reaches the caller of the      *)
+(* public assignment (M.exc, call.exc).                                    *)
 (* Ghosts for the declarative layer: `log` (deliveries of the last call in *)
 (* order, each [l, ev, sent, read, seq, fresh]) and `call`; the properties *)
 (* are at the end (C20).                                                   *)
@@ -45,7 +53,8 @@ CONSTANTS T2, T3,        \* ids of the 2D / 3D transforms (strings)
           Rot,           \* scalar rotations that are assigned / given to the constructor (integers)
           Vecs,          \* tokens of the vectors that are assigned / given to the constructor
           SubsChoices,   \* set of functions [L -> SUBSET Ev \ {{}}]: events each listener class maps
-          BehChoices,    \* set of functions [L -> <<"nop", "-", "-">> | <<"clamp", property, vector token>>]
+          BehChoices,    \* set of functions [L -> <<"nop", "-", "-">> | <<"clamp", property, vector token>>
+                         \*                          | <<"raise", property, "-">>]
           CtorChoices,   \* set of functions [T -> [Props -> value or Dflt]]: constructor arguments
           RegChoices,    \* set of functions [T -> SUBSET L]: listeners registered right after construction
           WithListenerOps,          \* BOOLEAN: include AddListener / RemoveListener
@@ -58,8 +67,9 @@ VARIABLES subs,      \* listener -> events its class maps (fixed after Init)
           stored,    \* transform -> [position, rotation, scale]: what a read of the property returns
           reg,       \* transform -> listeners registered on it
           log,       \* ghost: callbacks run by the last call, in order
-          call       \* ghost: the last public call [k, t, p, v, n, last]: v = the assigned value, n = number of
-                     \* assignments it comprised (nested ones included), last = what the latest of them keeps
+          call       \* ghost: the last public call [k, t, p, v, n, last, exc]: v = the assigned value, n = number
+                     \* of assignments it comprised (nested ones included), last = what the latest of them keeps,
+                     \* exc = an exception raised by a listener reached the caller
 
 vars == <<subs, beh, ctor, built, stored, reg, log, call>>
 
@@ -96,9 +106,10 @@ Nop == <<"nop", "-", "-">>
 ClampRot == 10                   \* clamp value of a 2D rotation (already in [0, 360): the clamp settles)
 Clamps(l, p) == beh[l][1] = "clamp" /\ beh[l][2] = p
 ClampVal(l, t, p) == IF Scalar(t, p) THEN N(ClampRot) ELSE V(beh[l][3])
+Raises(l, p) == beh[l][1] = "raise" /\ beh[l][2] = p
 \* dispatch(ev) on transform t reaches the registered listeners whose class maps ev (a snapshot)
 Targets(t, ev) == {l \in reg[t] : ev \in subs[l]}
-NoCall(k, t, p) == [k |-> k, t |-> t, p |-> p, v |-> Used, n |-> 0, last |-> Used]
+NoCall(k, t, p) == [k |-> k, t |-> t, p |-> p, v |-> Used, n |-> 0, last |-> Used, exc |-> FALSE]
 
 Init == /\ subs \in SubsChoices /\ beh \in BehChoices /\ ctor \in CtorChoices /\ reg \in RegChoices
         /\ built = FALSE
@@ -117,6 +128,7 @@ Build == /\ ~built /\ built' = TRUE
 (* the SET of machine states the call may end in (one per iteration order).*)
 (*   M.st    the stored values       M.lg    deliveries so far             *)
 (*   M.n     assignments begun       M.last  what the latest one keeps     *)
+(*   M.exc   an exception is propagating: every statement is skipped       *)
 (* A delivery is `fresh` when no assignment has begun since the one that   *)
 (* issued it; a stale one belongs to an outer dispatch still in progress   *)
 (* after a callback re-assigned the property.                              *)
@@ -129,23 +141,25 @@ Assign(t, p, v, M) ==
         M1 == [M EXCEPT !.n = @ + 1, !.last = kept] IN
     IF StoreBeforeNotify
     THEN Loop(t, p, sent, M1.n, Targets(t, EventOf(p)), Store(M1))      \* self._p = value; self.dispatch(EV, value)
-    ELSE {Store(X) : X \in Loop(t, p, sent, M1.n, Targets(t, EventOf(p)), M1)}
+    ELSE {IF X.exc THEN X ELSE Store(X) : X \in Loop(t, p, sent, M1.n, Targets(t, EventOf(p)), M1)}
 
 Loop(t, p, sent, seq, todo, M) ==
-    IF todo = {} THEN {M}
+    IF todo = {} \/ M.exc THEN {M}         \* served everybody / an exception (of a nested assignment) passes through
     ELSE UNION {
         LET M1 == [M EXCEPT !.lg = Append(@, [l |-> l, ev |-> EventOf(p), sent |-> sent, read |-> M.st[t][p],
                                                seq |-> seq, fresh |-> seq = M.n])] IN
-        IF Clamps(l, p) /\ sent # ClampVal(l, t, p)
+        IF Raises(l, p)
+        THEN {[M1 EXCEPT !.exc = TRUE]}                                 \* nobody else of `todo` is served
+        ELSE IF Clamps(l, p) /\ sent # ClampVal(l, t, p)
         THEN UNION {Loop(t, p, sent, seq, todo \ {l}, M2) : M2 \in Assign(t, p, ClampVal(l, t, p), M1)}
         ELSE Loop(t, p, sent, seq, todo \ {l}, M1)
       : l \in todo}
 
 Set(t, p, v) ==
     /\ built
-    /\ \E M \in Assign(t, p, v, [st |-> stored, lg |-> NoLog, n |-> 0, last |-> Used]) :
+    /\ \E M \in Assign(t, p, v, [st |-> stored, lg |-> NoLog, n |-> 0, last |-> Used, exc |-> FALSE]) :
          /\ stored' = M.st /\ log' = M.lg
-         /\ call' = [k |-> "set", t |-> t, p |-> p, v |-> v, n |-> M.n, last |-> M.last]
+         /\ call' = [k |-> "set", t |-> t, p |-> p, v |-> v, n |-> M.n, last |-> M.last, exc |-> M.exc]
     /\ UNCHANGED <<subs, beh, ctor, built, reg>>
 
 SetPosition(t, v) == v \in VecVals /\ Set(t, "position", v)
@@ -176,6 +190,7 @@ Spec == Init /\ [][Next]_vars
 Idx == 1..Len(log)
 TypeOK == /\ built \in BOOLEAN /\ reg \in [T -> SUBSET L] /\ subs \in [L -> SUBSET Ev]
           /\ \A i \in Idx : log[i].l \in L /\ log[i].ev \in Ev /\ log[i].seq \in 1..call.n
+          /\ call.exc \in BOOLEAN
 
 \* the value a read of property p of transform t returns
 Read(t, p) == stored[t][p]
@@ -192,7 +207,8 @@ ConstructedLikeAssigned ==
           stored'[t][p] = StoreForm(t, p, IF ctor[t][p] = Dflt THEN DefaultOf(t, p) ELSE ctor[t][p])]_vars
 
 \* the notifications of the latest assignment of the call carry the value a read of the property returns
-\* right after the call (without re-entrant listeners: every notification does)
+\* right after the call (without re-entrant listeners: every notification does) - whether or not one of the
+\* listeners raised: whoever was told the value was told what the property reads now
 NotifiedValueIsReadBack == \A i \in Idx : log[i].seq = call.n => log[i].sent = Read(call.t, PropOf(log[i].ev))
 
 \* the value is stored before anybody is told: a listener reading the property inside its callback sees the value
@@ -200,7 +216,8 @@ NotifiedValueIsReadBack == \A i \in Idx : log[i].seq = call.n => log[i].sent = R
 DeliveryReadsPayload == \A i \in Idx : log[i].fresh => log[i].read = log[i].sent
 
 \* after the call the property holds what the most recent assignment (in the order they were made, nested ones
-\* included) keeps: an outer assignment does not overwrite what a callback assigned meanwhile
+\* included) keeps: an outer assignment does not overwrite what a callback assigned meanwhile, and an assignment
+\* during which a listener raised is not taken back
 StoredIsLastAssigned == call.k = "set" => Read(call.t, call.p) = call.last
 
 \* after the call, the last notification a listener received is the value a read returns — unless it is a stale one
@@ -216,11 +233,21 @@ LastNotificationIsReadBackStrict ==
 OnlyMatchingEvent == \A i \in Idx : call.k = "set" /\ log[i].ev = EventOf(call.p)
 
 \* every assignment (nested ones included) notifies exactly once each listener registered on the assigned
-\* transform whose class maps the event, and nobody else (in particular not the listeners of the other transform)
+\* transform whose class maps the event, and nobody else (in particular not the listeners of the other transform);
+\* when a listener raised, the assignments in progress were cut short: nobody twice, nobody else
 OncePerListener ==
     call.k = "set" =>
-        \A l \in L, s \in 1..call.n : Cardinality({i \in Idx : log[i].l = l /\ log[i].seq = s}) =
-                                        (IF l \in reg[call.t] /\ EventOf(call.p) \in subs[l] THEN 1 ELSE 0)
+        \A l \in L, s \in 1..call.n :
+            LET got == Cardinality({i \in Idx : log[i].l = l /\ log[i].seq = s})
+                due == IF l \in reg[call.t] /\ EventOf(call.p) \in subs[l] THEN 1 ELSE 0 IN
+            IF call.exc THEN got <= due ELSE got = due
+
+\* the caller of the assignment gets the exception exactly when a raising listener was served, and that delivery
+\* is the last thing the call did
+RaiseEndsTheCall ==
+    LET Raised(i) == Raises(log[i].l, PropOf(log[i].ev)) IN
+    /\ call.exc <=> \E i \in Idx : Raised(i)
+    /\ \A i \in Idx : Raised(i) => i = Len(log)
 
 \* a call on one transform never changes what another one reads — instances built from the same default
 \* arguments included: they hold no common value that an assignment elsewhere could alter
